@@ -23,7 +23,7 @@ CLAIMED = {
    text="Seeded search over 3-D workloads x simulated schedules: the real voxel::render on the simulated executor versus a brute-force heightmap (Context::eval on every voxel, plus the voxels just above the grid to recognise the excluded columns) and f64 dual gradients for normals.",
    technique="deterministic simulation (seeded fork-join executor replacing rayon) + brute-force heightmap/gradient oracle"),
  "C09": dict(engine="E1-par-sim", ref="5/C09",
-   text="Seeded search over schedules and cancel instants: 2-D/3-D renders and octree meshing run on the simulated executor with pool sizes 1..=16, drawn split trees, item interleavings, stop-flag visibility and a cancel fired before the call / before executor item j / before poll j / never; results must equal the sequential run bit for bit, a pre-cancelled or post-cancel-polled run must return None, an uncancelled run must return Some. One pool execution in four is preemptive (segments on baton-passing OS threads, hand-over at sched points inside interpreter loops and before native calls), and one run in four is a shared-function simulation: mostly E5 (2-4 logical threads on clones of one function's tapes on the preemptive executor, each compared with its solo results), one in six of those E6, the ptrace step-sim (two REAL threads of a traced child process share one function; the simulator freezes thread A at a machine instruction of its choice - just before / just after each lock-prefixed instruction, xchg, fence or syscall A executes in the code under test, or a few instructions further - lets thread B run its whole operation list, resumes A; each thread must get its solo results; covers the native JIT code and synchronisation code that has no sched point; a share of the scenarios gets a deep pass that single-steps both threads, decodes every memory operand and also freezes A at its plain loads and stores to shared memory that B touches). For small workloads (<= 40 polls) every cancel placement is enumerated for the sequential path and one pool. The thorough tier adds E4: shared interpreter tapes on 3 OS threads and the REAL rayon scheduler on tiny renders/meshes under Miri's seeded preemptive scheduler and data-race detector. A crash or a call that never returns is reported as a violation (child-process supervision, 30 s liveness watchdog).",
+   text="Seeded search over schedules and cancel instants: 2-D/3-D renders and octree meshing run on the simulated executor with pool sizes 1..=16, drawn split trees, item interleavings, stop-flag visibility and a cancel fired before the call / before executor item j / before poll j / never; results must equal the sequential run bit for bit, a pre-cancelled or post-cancel-polled run must return None, an uncancelled run must return Some. One pool execution in four is preemptive (segments on baton-passing OS threads, hand-over at sched points inside interpreter loops and before native calls), and one run in four is a shared-function simulation: mostly E5 (2-4 logical threads on clones of one function's tapes on the preemptive executor, each compared with its solo results), one in six of those E6, the ptrace step-sim (two REAL threads of a traced child process share one function; the simulator freezes thread A at a machine instruction of its choice - just before / just after each lock-prefixed instruction, xchg, fence or syscall A executes in the code under test, or a few instructions further - lets thread B run its whole operation list, resumes A; each thread must get its solo results; covers the native JIT code and synchronisation code that has no sched point; a share of the scenarios gets a deep pass that single-steps both threads, decodes every memory operand and also freezes A at its plain loads and stores to shared memory that B touches; a share of the trials adds a second, third and fourth preemption (A-B-A-B-A-B), and for compare-and-swap instructions of A a scout execution finds the instants at which B has restored the CAS word to the value A saw, where B is then frozen - the ABA schedules; five set-ups: shared tapes, per-thread tapes, shape-level first use, churning hoards of live tapes, small renders). One C06/C07/C09 run in four first makes an unrelated call (other shape, kind, size, tile list) on the run's thread, and the real single-thread rayon pool serves an unrelated call first one time in three, so that anything the library parks between calls is dirty. For small workloads (<= 40 polls) every cancel placement is enumerated for the sequential path and one pool. The thorough tier adds E4: shared interpreter tapes on 3 OS threads and the REAL rayon scheduler on tiny renders/meshes under Miri's seeded preemptive scheduler and data-race detector. A crash or a call that never returns is reported as a violation (child-process supervision, 30 s liveness watchdog).",
    technique="deterministic simulation: seeded schedule and cancel-instant search with sequential reference model"),
 
  "C10": dict(engine="E2-reuse-history", ref="5/C10",
